@@ -197,11 +197,13 @@ def s2c_store(ctx, emitted, label, npaths, blocked, sample=None):
     leaves = _leaves(emitted, ctxkey=lambda e: json.dumps(e['init']))
     total = len(leaves)
     if sample is not None and len(leaves) > sample:
-        # a seeded sample in which every fault class is represented alike: the histories are grouped by the fault
-        # classes their reads happen under, and drawn from the groups in turn
+        # a seeded sample in which every fault class and every kind of reader (fresh / lived through the write / the writer)
+        # is represented alike: the histories are grouped by the fault classes and the readers of their reads, and drawn
+        # from the groups in turn
         groups = {}
         for e in leaves:
-            groups.setdefault(json.dumps(sorted({x['fault'] for x in e['hist'] if x['op'] == 'read'})), []).append(e)
+            reads = [x for x in e['hist'] if x['op'] == 'read']
+            groups.setdefault(json.dumps([sorted({x['fault'] for x in reads}), sorted({x['reader'] for x in reads})]), []).append(e)
         for g in groups.values():
             ctx.rng.shuffle(g)
         picked = []
@@ -342,6 +344,8 @@ def _store_history(args):
         spawn()
         if rng.random() < 0.6:
             read(1)
+        if rng.random() < 0.5:
+            read(spawn())                                     # a second process that has seen the initial configuration
         for step in range(rng.randint(3, 7)):
             if len(procs) >= 4:
                 break
@@ -364,6 +368,9 @@ def _store_history(args):
                 feats['bad'] += 1 if isbad else 0
                 if rng.random() < 0.7:
                     read(p)
+                for x in live():                              # ... and the processes that have lived through it
+                    if x != p and rng.random() < 0.5:
+                        read(x)
             elif what == 'pause':
                 # a write is stopped (SIGSTOP) at an arbitrary event; another process reads meanwhile; then the writer
                 # goes on to the end - or is killed where it stands
@@ -981,19 +988,19 @@ def run(ctx):
             # --- S2C
             mark('start')
             recs = []
-            GEN[0] and recs.extend(s2c_store(ctx, ctx.generate(*GEN[0]), 'one-file', 1, (), sample=300 if q else None))
+            GEN[0] and recs.extend(s2c_store(ctx, ctx.generate(*GEN[0]), 'one-file', 1, (), sample=240 if q else None))
             mark('s2c store one-file')
             GEN[1] and s2c_reg(ctx, ctx.generate(*GEN[1]), 'length<=3')
             mark('s2c registry')
             GEN[2] and s2c_nd(ctx, ctx.generate(*GEN[2]))
             mark('s2c named_dict')
-            GEN[3] and recs.extend(s2c_store(ctx, ctx.generate(*GEN[3]), 'two-files', 2, (), sample=100 if q else None))
-            GEN[4] and recs.extend(s2c_store(ctx, ctx.generate(*GEN[4]), 'two-files-first-blocked', 2, (1,), sample=60 if q else None))
+            GEN[3] and recs.extend(s2c_store(ctx, ctx.generate(*GEN[3]), 'two-files', 2, (), sample=80 if q else None))
+            GEN[4] and recs.extend(s2c_store(ctx, ctx.generate(*GEN[4]), 'two-files-first-blocked', 2, (1,), sample=40 if q else None))
             GEN[5] and s2c_reg(ctx, ctx.generate(*GEN[5]), 'narrow-menu-length<=%d' % (4 if q else 5))
             GEN[6] and s2c_nd_inst(ctx, ctx.generate(*GEN[6]), 'ops<=2' if q else 'ops<=3')
             # --- C2S: record everything, then let the trace specifications judge (their runs are started together, too)
             mark('s2c rest')
-            hs, logs = c2s_store_record(ctx, 64 if q else 1200, 2 if q else 12, recs) if only in (None, 'store') else ([], [])
+            hs, logs = c2s_store_record(ctx, 48 if q else 1200, 2 if q else 12, recs) if only in (None, 'store') else ([], [])
             mark('c2s store recorded')
             regs = c2s_reg_record(ctx, 150 if q else 2000) if only in (None, 'reg') else []
             obs, hists = c2s_nd_record(ctx, 500 if q else 6000, 150 if q else 1500) if only in (None, 'nd') else ([], [])
